@@ -15,7 +15,9 @@ ID = "C05"
 RULE = ("kind 'sample': exhaustive for one topology (all 1-2 key subsets of {0,1,2}, sizes 1..3, N 1..3, ALL choices answers, "
         "ALL randrange answer sequences of the maximal needed length) then seeded random (1-4 topologies, sizes 1..6, N 1..12, "
         "2-6 keys with entries 0..5, dyadic unnormalised weights, random oracle answers; in about a third of the cases a SECOND "
-        "sample call on the same loader object with other answers); malformed: too few motif sizes "
+        "sample call on the same loader object with other answers); a 'huge' class: key entries of 2**31 .. 2**73 (around "
+        "2**53, 1e16..1e20, 2**63, 2**64, +-40) so that column totals exceed float and int64 exactness, and a 'wide' class: "
+        "motif sizes 7..65 (up to 64 stubs for one topology); malformed: too few motif sizes "
         "(IndexError), a zero size (ZeroDivisionError), N = 0, ragged keys. kind 'choices': weights/r dyadic, r on and off the "
         "interval boundaries. Compared: the logged choices call (population, weights, k), every randrange call (range and "
         "answer position), the returned sequence incl. Python type tags, acceptance by JointDegreeEmpirical, exception class. "
@@ -74,6 +76,10 @@ def corpus():
         mk([[1]], [Fraction(3)], [1], 3, [0, 0, 0], []),
         mk([[1], [0]], [Fraction(1, 4), Fraction(3, 4)], [3], 1, [0], [0, 0]),
         mk([[1, 2, 0], [0, 0, 1]], [Fraction(1), Fraction(2)], [2, 3, 4], 4, [0, 1, 1, 0], [0, 3, 3, 1, 2, 2, 2]),
+        # column totals beyond float exactness (2**53) / int64: the deficit must still be computed in exact integers
+        mk([[2**53 + 1]], [Fraction(1)], [2], 1, [0], [0]),
+        mk([[3 * 10**16 + 2, 1], [2**64 + 1, 0]], [Fraction(1), Fraction(2)], [3, 5], 3, [0, 1, 1], [2, 0, 1, 1, 0, 2, 2]),
+        mk([[10**20 + 7]], [Fraction(1, 2)], [17], 2, [0, 0], [1, 0] * 8),
         mk([[1, 1]], [Fraction(1)], [2], 3, [0, 0, 0], [1]),          # too few sizes -> IndexError
         mk([[1, 1]], [Fraction(1)], [2, 0], 3, [0, 0, 0], [1]),       # zero size -> ZeroDivisionError
         {"kind": "choices", "weights": [[1, 4], [1, 2], [1, 4]], "r": [3, 4]},
@@ -100,17 +106,40 @@ def _dyadic(rng, lo=1, hi=16, den=None):
     return Fraction(rng.randint(lo, hi), den)
 
 
-def _random_sample(rng, big=False):
+# integers at which a float round trip (2**53), a fixed-width integer (2**31, 2**63, 2**64) or a decimal shortcut stops
+# being exact; keys are arbitrary non-negative integers, so totals of this magnitude are legal
+BIG_BASES = [2**31, 2**32, 2**53, 2**53 + 2**20, 10**16, 3 * 10**16, 10**17, 2**62, 2**63, 2**64, 10**19, 10**20, 2**70]
+LARGE_SIZES = [7, 8, 9, 11, 16, 17, 31, 33, 64, 65]
+
+
+def _bigint(rng):
+    return max(0, rng.choice(BIG_BASES) * rng.choice([1, 1, 1, 2, 3, 5, 7]) + rng.randint(-40, 40))
+
+
+def _random_sample(rng, big=False, huge=False, wide=False):
+    """huge: some key entries are integers of 2**31 .. 2**73 (column totals beyond float / int64 exactness);
+    wide: some motif sizes of 7..65 (many stubs to add for one topology)"""
     T = rng.randint(1, 4)
     sizes = [rng.choice([1, 2, 2, 3, 3, 4, 5, 6]) for _ in range(T)]
+    if wide:
+        for i in range(T):
+            if i == 0 or rng.random() < 0.3:
+                sizes[i] = rng.choice(LARGE_SIZES)
     nk = rng.randint(1, 6)
     keys = []
+    hcols = [i for i in range(T) if rng.random() < 0.6] or [rng.randrange(T)]
     while len(keys) < nk:
         k = [rng.randint(0, 5) for _ in range(T)]
+        if huge and (not keys or rng.random() < 0.5):
+            for i in hcols:
+                if rng.random() < 0.8:
+                    k[i] = _bigint(rng)
         if k not in keys:
             keys.append(k)
     weights = [_dyadic(rng) for _ in keys]
     N = rng.randint(1, 40 if big else 12)
+    if huge or wide:
+        N = rng.randint(1, 6)
     draws = [rng.randrange(len(keys)) for _ in range(N)]
     rs = [rng.randrange(N) for _ in range(sum(sizes))]
     if rng.random() < 0.25:      # concentrate patches on one row: second patch of an already patched row
@@ -149,6 +178,10 @@ def generate(rng, tier):
     n = 800 if tier == "quick" else 8000
     for _ in range(n):
         yield _random_sample(rng, big=(tier != "quick"))
+    for i in range(n // 4):
+        yield _random_sample(rng, huge=True, wide=(i % 4 == 0))
+    for _ in range(n // 8):
+        yield _random_sample(rng, wide=True)
     # malformed
     for _ in range(150 if tier == "quick" else 1000):
         c = _random_sample(rng)
@@ -402,7 +435,7 @@ def describe(case, io):
 
 def histogram(cases):
     h = {"sample_valid": 0, "sample_malformed": 0, "choices_rule": 0, "size_one_topology": 0, "N=1": 0, "max_N": 0,
-         "max_topologies": 0}
+         "max_topologies": 0, "entries>=2**53": 0, "motif_size>=7": 0}
     for c in cases:
         if c["kind"] == "choices":
             h["choices_rule"] += 1
@@ -415,6 +448,10 @@ def histogram(cases):
             h["size_one_topology"] += 1
         if c["N"] == 1:
             h["N=1"] += 1
+        if any(x >= 2**53 for k in c["keys"] for x in k):
+            h["entries>=2**53"] += 1
+        if any(x >= 7 for x in c["sizes"]):
+            h["motif_size>=7"] += 1
         h["max_N"] = max(h["max_N"], c["N"])
         h["max_topologies"] = max(h["max_topologies"], len(c["sizes"]))
     return h
